@@ -228,6 +228,7 @@ type Facts struct {
 	blockIn  map[*ssa.Function]map[*ssa.BasicBlock]FactSet
 	retMemo  map[retKey]FactSet
 	inProg   map[retKey]bool
+	edgeBusy map[[2]*ssa.BasicBlock]bool // edges whose condition facts are being computed (loop-carried conditions)
 }
 
 type retKey struct {
@@ -237,7 +238,7 @@ type retKey struct {
 }
 
 func newFacts(p *Prog, depth int) *Facts {
-	return &Facts{P: p, MaxDepth: depth, blockIn: map[*ssa.Function]map[*ssa.BasicBlock]FactSet{}, retMemo: map[retKey]FactSet{}, inProg: map[retKey]bool{}}
+	return &Facts{P: p, MaxDepth: depth, blockIn: map[*ssa.Function]map[*ssa.BasicBlock]FactSet{}, retMemo: map[retKey]FactSet{}, inProg: map[retKey]bool{}, edgeBusy: map[[2]*ssa.BasicBlock]bool{}}
 }
 
 // valueFacts: facts that hold whenever v has the wanted value.
@@ -503,6 +504,14 @@ func (fx *Facts) edgeFacts(pred, succ *ssa.BasicBlock, depth int) FactSet {
 		return in
 	}
 	s := in.clone()
+	// a branch condition that is itself carried around a loop (flag = flag || test(x)) leads back to this edge
+	// through its φ: the inner query gets the block facts only (fewer facts — never a wrong one)
+	ek := [2]*ssa.BasicBlock{pred, succ}
+	if fx.edgeBusy[ek] {
+		return s
+	}
+	fx.edgeBusy[ek] = true
+	defer delete(fx.edgeBusy, ek)
 	if iff, ok := pred.Instrs[len(pred.Instrs)-1].(*ssa.If); ok && pred.Succs[0] != pred.Succs[1] {
 		if pred.Succs[0] == succ {
 			s.addAll(fx.valueFacts(iff.Cond, WantTrue, depth, map[ssa.Value]bool{}))
